@@ -607,7 +607,12 @@ fn random_candidate(r: &mut Xo) -> Candidate {
             let k = r.range(1, 3);
             let v: Vec<Trans> = (0..k)
                 .map(|_| {
-                    let t = *r.pick(&[0usize, 1, 2, 3, STATE_END, STATE_SIGNAL, STATE_SIGNAL - 1]);
+                    let t = if r.chance(1, 8) {
+                        // beyond the 32-bit range the pseudo-states live in: neither a state nor a pseudo-state
+                        *r.pick(&[STATE_END + 1, 1usize << 32, (1usize << 32) + 1, (1usize << 32) + STATE_SIGNAL, usize::MAX, usize::MAX - 1, usize::MAX / 2, 1usize << 63])
+                    } else {
+                        *r.pick(&[0usize, 1, 2, 3, STATE_END, STATE_SIGNAL, STATE_SIGNAL - 1])
+                    };
                     let p = if r.chance(1, 3) { *r.pick(&specials32()) } else { *r.pick(&[1.0f32, 0.5, 0.25, 0.75, 0.3]) };
                     Trans(t, p)
                 })
